@@ -5,11 +5,11 @@ import json, os, re, collections
 READY = True
 
 META = {
-    "technique": "Lean 4 proof (model of the root tokenizer = declarative whitespace rules on segment lists, for every setting, marker placement, line ending and every well-formed delimiter set under a leftmost-longest start search) + enumerated/sampled correspondence of model, Lean spec, an independent Python implementation of the rules and the real engine (tokenizer and Environment::render_str)",
+    "technique": "Lean 4 proof (model of the root tokenizer incl. tag interiors, line statements/comments and the Aho-Corasick start-marker search as syntax.rs builds it = declarative whitespace rules on segment lists, for every setting, marker placement, line ending and every well-formed delimiter set) + enumerated/sampled correspondence of model, Lean spec, an independent Python implementation of the rules and the real engine (tokenizer and Environment::render_str)",
     "category": "proof",
-    "text": "Kernel-checked theorems about MJ/Model/Lexer.lean (transcription of Tokenizer::new, tokenize_root, find_start_marker_memchr, lstrip_block, should_lstrip_block, handle_tail_ws, skip_newline_if_trim_blocks, comment and raw handling): on every template whose texts contain no start delimiter the lexed text equals specRender, which applies the five rules of the statement locally; the result does not depend on the delimiter set (delim_invariance) and default-looking tags are plain text under other delimiters. Tied to /repo by running the same segment sequences (alphabets of the quantifier x tags x 9 marker pairs x 8 settings x 11 delimiter families) through machinery::tokenize, Environment::render_str, the compiled Lean model and spec, and a second implementation of the rules in Python; core-fragment programs are rewritten to every family and must render identically; line statements/comments are compared with the tag they stand for; invalid delimiter sets must be rejected by SyntaxConfigBuilder::build.",
+    "text": "Kernel-checked theorems about MJ/Model/Lexer.lean (transcription of Tokenizer::new, tokenize_root, find_start_marker incl. validated_start_delims / pattern_to_marker / the overlapping-match loop with max_pattern_len, find_start_marker_memchr, lstrip_block, should_lstrip_block, handle_tail_ws, skip_newline_if_trim_blocks, comment and raw handling, tokenize_block_or_var with strings, numbers, operators and bracket depth, line statements and line comments with skip_nl): the search the tokenizer uses is leftmost-longest for every delimiter set build accepts; the end of a tag is found exactly behind any well-formed token-list interior; on every template whose texts contain no start delimiter and whose tags read back as written the lexed text equals specRender, which applies the five rules of the statement locally and treats a line statement / line comment as the block / comment tag occupying its line; the result does not depend on the delimiter set and default-looking tags are plain text under other delimiters. Tied to /repo by running segment sequences (alphabets of the quantifier x tags incl. degenerate and rich interiors x marker pairs x 8 settings x 11 delimiter families), random delimiter sets x random sources, line statement layouts and core-fragment programs through machinery::tokenize, Environment::render_str, the compiled Lean model and spec, and a second implementation of the rules in Python; invalid delimiter sets must be rejected by SyntaxConfigBuilder::build.",
     "design_ref": "DESIGN.md §3 C10",
-    "level_note": "Trusted: Lean kernel; hand transcription of lexer.rs into MJ/Model/Lexer.lean (validated on every generated case, including non-delimiter-free texts); the Aho-Corasick search is represented by its specification findLL (leftmost, then longest; line statement prefix only at line start) and validated through the delimiter families; tag interiors other than identifiers/whitespace, line statements and the rendering pipeline after the lexer are covered by the differential runs only.",
+    "level_note": "Trusted: Lean kernel; hand transcription of lexer.rs / syntax.rs into MJ/Model/Lexer.lean (validated on every generated case, including non-delimiter-free texts and lexer errors); aho_corasick::find_overlapping is represented by 'all occurrences ordered by end offset' (the proof does not depend on the order among matches with the same end); byte offsets of the Rust code are character positions of the model; non-ASCII identifiers and \\u/\\x/octal string escapes are outside the model (answer 'unsupported'); the parser / code generator / renderer behind the lexer are covered by the differential runs only.",
 }
 
 _WS_CP = [9, 10, 11, 12, 13, 32, 0x85, 0xA0, 0x1680] + list(range(0x2000, 0x200B)) + [0x2028, 0x2029, 0x202F, 0x205F, 0x3000]
@@ -344,15 +344,19 @@ def usable_cfg(d):
 def run(r):
     r.rule = ("seg: default delimiters, all 8 settings, exhaustively: every sequence of <= 2 items, every text-tag-text and tag-text-tag "
               "triple (thorough: every sequence of 3 items) over 12 whitespace/newline/CR/brace/look-alike texts x {variable, if/endif, "
-              "comment} x 9 marker pairs + raw blocks (outer and inner markers, 16 contents); 60k (thorough 300k) sampled sequences of "
-              "3-4 items over 44 texts and the full raw set; the same vocabulary with look-alike texts under 10 custom delimiter "
-              "families (prefix-sharing, nested-prefix, single-brace, LaTeX, shared end, contained start, line prefixes): all sequences "
-              "of <= 2 items x 2-3 settings + sampled longer ones.  prog: random core-fragment programs (for/if/else/set/filter/with/"
-              "raw/comments/expressions with strings containing delimiters) rewritten to each family.  line: random line statement / "
-              "line comment layouts x 3 line endings x 8 settings.  cfg: 11 valid and 10 invalid delimiter sets.  A seg case is "
-              "non-trivial when it is distinct, delimiter-free and contains at least one tag")
-    r.assumptions = ["tag interiors other than the fixed vocabulary are lexed by tokenize_block_or_var as validated by the prog stream only",
-                     "byte offsets of the Rust lexer correspond to character positions of the model (UTF-8 self-synchronisation)",
+              "comment} x 9 marker pairs + raw blocks (outer and inner markers, 16 contents); degenerate tags (empty / blank / marker-like "
+              "comment bodies, tight tags, empty raw blocks with 81 marker combinations) and 70 richer interiors (strings containing end "
+              "delimiters, brackets, numbers in every notation, operators next to the end delimiter, lexer errors) in text contexts; "
+              "60k (thorough 300k) sampled sequences of 3-4 items over 44 texts; the same vocabulary with look-alike texts under 10 "
+              "custom delimiter families.  rand: 500 (thorough 4000) random delimiter sets (shared stems, nested and contained start "
+              "delimiters, multi-byte characters, optional line prefixes) x 30-40 random sources made of delimiter fragments.  prog: "
+              "random core-fragment programs rewritten to each family (lexed by the model as well).  line: random line statement / line "
+              "comment layouts x 3 line endings x 8 settings, as templates with line tags (Lean spec) and against the in-place tag form.  "
+              "cfg: valid, invalid and degenerate delimiter sets.  A seg case is non-trivial when it is distinct, delimiter-free and "
+              "contains at least one tag")
+    r.assumptions = ["byte offsets of the Rust lexer correspond to character positions of the model (UTF-8 self-synchronisation)",
+                     "aho_corasick::find_overlapping reports every occurrence of every pattern ordered by end offset",
+                     "identifiers are ASCII (with the unicode feature non-ASCII identifier characters make the model answer 'unsupported')",
                      "sequences longer than those enumerated behave as the induction in lex_eq_spec says (proved for the model)"]
     r.regen_tables()
     r.lean_prove("MJ.Props.C10", "MJ/Audit/C10.lean", extra_targets=["drive_c10"])
